@@ -37,8 +37,15 @@ pub trait DataInput {
 
     /// Read a vector of bytes with the specified length
     fn read_vec(&mut self, len: usize) -> Result<Vec<u8>> {
-        let mut buf = vec![0u8; len];
-        self.read_bytes(&mut buf)?;
+        // `len` usually comes from the input itself: grow in bounded chunks so that a
+        // damaged length fails on the missing bytes instead of allocating `len` up front.
+        const CHUNK: usize = 64 * 1024;
+        let mut buf = Vec::new();
+        while buf.len() < len {
+            let start = buf.len();
+            buf.resize(start + (len - start).min(CHUNK), 0);
+            self.read_bytes(&mut buf[start..])?;
+        }
         Ok(buf)
     }
 
